@@ -311,6 +311,16 @@ fixed("C10", "C10:combining-character-opening-a-run-at-a-slice-edge", "e5029ee",
        {"op": "slice", "spec": [["a", RED], ["́b", {}]], "a": 1, "b": 2},
        {"op": "slice", "spec": [["Ｅ", RED], ["́", BLUE], ["b", {}]], "a": 0, "b": 2}])
 
+fixed("C15", "C15:filled-padding-parsed-as-markup", "156ef08",
+      "ljust/rjust with a fill character parsed the padded text as markup: text holding ESC or U+009B came back shorter than "
+      "the width (the case next to 0d6942b)",
+      [{"kind": "control-text", "spec": [["caf\x9b", {}], [" au lait", {"bold": True}]], "method": "ljust", "args": [16, "*"]},
+       {"kind": "control-text", "spec": [["\x1b", {"fg": 31}], ["[1mA ", {"fg": 31}]], "method": "rjust", "args": [16, "["]}])
+fixed("C15", "C15:tuple-members-unformatted", "6211bbc",
+      "partition / rpartition returned bare str members: the shared formatting that rsplit keeps was dropped",
+      [{"spec": [["a b", {"fg": 31, "bold": True}]], "method": "partition", "args": [" "], "kwargs": {}},
+       {"spec": [["ab", {"fg": 31}], [" c", {"fg": 31, "bg": 44}]], "method": "rpartition", "args": [" "], "kwargs": {}}])
+
 known("C03", "C03:prefix-then-undecodable-byte",
       "get_key raises UnicodeDecodeError for a table-sequence prefix (e.g. ESC) followed by a byte >= 0x80 "
       "that does not decode: ESC + any 8-bit byte under ascii, ESC + a UTF-8 lead/continuation byte under utf-8",
